@@ -119,6 +119,32 @@ Max2(x, y) == IF x >= y THEN x ELSE y
 ChangedCells(dc, nl, sc, ic, r, pre) ==
   IF InMemory(dc) THEN {Addr(dc, k, sc, ic) : k \in {j \in Lanes(nl) : pre[j + 1] = <<>> \/ r[j + 1] # pre[j + 1]}} ELSE {}
 
+(* ---- wide positions.  Strides, index-list entries and arena positions of 2^31 and more do not fit a TLC integer.  A call with
+   such arguments is recorded with EVERY stride, index-list entry, arena position and extent as a 64-bit word of 8 limbs (W64,
+   least significant first) and judged with the limb forms below.  They say the same as Addr / Footprint / Extent / LanesAt /
+   Injective / CellOk / ChangedCells: lane k of a strided operand is element k * s, of an indexed operand element idx[k], whatever
+   the size of s and idx[k]; MC_Layout checks that the two forms agree wherever both are defined.  FitsW: arguments below 2^40,
+   so that neither the positions of up to 8 lanes nor their byte offsets wrap at 2^64 (a wrapping position is outside the
+   property).  A changed position that is not a position of the array at all (a cell in front of the base pointer) is recorded as
+   the two's-complement word of its negative index: it equals no footprint position. *)
+MulSmallW(k, w) == Norm8(k * w[1], k * w[2], k * w[3], k * w[4], k * w[5], k * w[6], k * w[7], k * w[8])
+SuccW(w) == Norm8(w[1] + 1, w[2], w[3], w[4], w[5], w[6], w[7], w[8])
+FitsW(w) == IsWord(w) /\ w[6] = 0 /\ w[7] = 0 /\ w[8] = 0
+AddrW(d, k, sw, idxw) ==
+  CASE d.kind = "contig" -> OfInt(k)
+    [] d.kind = "stride" -> MulSmallW(k, sw)
+    [] d.kind = "index"  -> idxw[k + 1]
+    [] d.kind = "scalar" -> Zero8
+    [] OTHER             -> OfInt(k)
+FootprintW(d, nl, sw, idxw) == IF InMemory(d) THEN {AddrW(d, k, sw, idxw) : k \in Lanes(nl)} ELSE {}
+MaxW(S) == CHOOSE m \in S : \A x \in S : Ge8(m, x)
+ExtentW(d, nl, sw, idxw) == LET F == FootprintW(d, nl, sw, idxw) IN IF F = {} THEN Zero8 ELSE SuccW(MaxW(F))
+LanesAtW(d, nl, sw, idxw, addr) == {k \in Lanes(nl) : AddrW(d, k, sw, idxw) = addr}
+InjectiveW(d, nl, sw, idxw) == \A j, k \in Lanes(nl) : j # k => AddrW(d, j, sw, idxw) # AddrW(d, k, sw, idxw)
+CellOkW(op, dc, nl, scw, icw, x, cell, av, bv) == \E k \in LanesAtW(dc, nl, scw, icw, x) : ResultOk(op, cell, av[k + 1], bv[k + 1])
+ChangedCellsW(dc, nl, scw, icw, r, pre) ==
+  IF InMemory(dc) THEN {AddrW(dc, k, scw, icw) : k \in {j \in Lanes(nl) : pre[j + 1] = <<>> \/ r[j + 1] # pre[j + 1]}} ELSE {}
+
 (* ---- one table row (Overloads17 / Overloads16) *)
 RowFields == {"id", "fam", "fn", "sec", "op", "lanes", "variant", "aligned", "defined", "a", "b", "c"}
 WellFormedRow(r) ==
